@@ -645,10 +645,13 @@ fn theme_queens(t: &mut Tape) -> Option<GenPos> {
         return None;
     }
     for white in [true, false] {
-        let nq = t.pick(10);
+        // mostly queens; one time in three another kind, up to the most a game can produce (ten
+        // rooks, bishops or knights: the two original ones and eight promoted pawns)
+        let main = [Kind::Q, Kind::Q, Kind::Q, Kind::Q, Kind::R, Kind::B, Kind::N, Kind::R][t.pick(8)];
+        let nq = if main != Kind::Q && t.pick(3) == 0 { 10 } else { t.pick(if main == Kind::Q { 10 } else { 11 }) };
         for _ in 0..nq {
             if let Some(s) = pick_empty(t, &p, &[]) {
-                let pc = Pc::new(white, Kind::Q);
+                let pc = Pc::new(white, main);
                 if material_ok_after(&p, pc) {
                     put(&mut p, s, pc);
                 }
@@ -679,6 +682,78 @@ fn theme_queens(t: &mut Tape) -> Option<GenPos> {
         p.white_to_move = false;
     }
     finish(t, p, "theme_queens")
+}
+
+/// Theme: a slider whose lines are (almost) completely occupied - the "every relevant square is
+/// occupied" end of the magic tables, which ordinary play never reaches. A rook, bishop or queen
+/// stands on any square; every square of its lines is filled with probability 15/16; in a third of
+/// the cases the enemy king stands right next to it on one of the lines (the check that only the
+/// full-occupancy table entry reports).
+fn theme_boxed(t: &mut Tape) -> Option<GenPos> {
+    let mut p = Pos::empty();
+    p.white_to_move = t.pick(2) == 0;
+    let s = t.pick(64) as Sq;
+    let white = t.pick(2) == 0;
+    let kind = [Kind::R, Kind::Q, Kind::B, Kind::R][t.pick(4)];
+    p.board[s as usize] = Some(Pc::new(white, kind));
+    let dirs: Vec<(i32, i32)> = ALL_D
+        .iter()
+        .copied()
+        .filter(|d| {
+            let diag = d.0 != 0 && d.1 != 0;
+            kind == Kind::Q || (kind == Kind::B) == diag
+        })
+        .collect();
+    let mut line: Vec<Sq> = vec![];
+    for d in &dirs {
+        line.extend(ray(s, *d));
+    }
+    // kings first: the enemy king next to the slider on a line (he is then in check and to move),
+    // or anywhere
+    let adjacent: Vec<Sq> = dirs.iter().filter_map(|d| ray(s, *d).first().copied()).collect();
+    let mut placed_enemy = false;
+    if t.pick(3) == 0 && !adjacent.is_empty() {
+        let k = adjacent[t.pick(adjacent.len())];
+        p.board[k as usize] = Some(Pc::new(!white, Kind::K));
+        p.white_to_move = !white;
+        placed_enemy = true;
+    }
+    let sparse = t.pick(8) == 0;
+    for q in &line {
+        if p.board[*q as usize].is_some() || t.pick(if sparse { 2 } else { 16 }) == 0 {
+            continue;
+        }
+        for _ in 0..4 {
+            let pc = Pc::new(t.pick(2) == 0, EXTRA_KINDS[t.pick(EXTRA_KINDS.len())]);
+            if can_hold(*q, pc) && material_ok_after(&p, pc) {
+                put(&mut p, *q, pc);
+                break;
+            }
+        }
+    }
+    if !placed_enemy && !place_king_safely(t, &mut p, !white, &[]) {
+        return None;
+    }
+    if !place_king_safely(t, &mut p, white, &[]) {
+        return None;
+    }
+    let extra = t.pick(6);
+    sprinkle(t, &mut p, extra, &[]);
+    let wk = p.king_sq(true)?;
+    let bk = p.king_sq(false)?;
+    let w_in = p.attacked(wk, false);
+    let b_in = p.attacked(bk, true);
+    if w_in && b_in {
+        return None;
+    }
+    if w_in {
+        p.white_to_move = true;
+    }
+    if b_in {
+        p.white_to_move = false;
+    }
+    grant_rights(t, &mut p);
+    finish(t, p, "theme_boxed")
 }
 
 /// Random placements from sparse (2-5 men) to dense.
@@ -864,7 +939,8 @@ pub fn gen_root(t: &mut Tape, mix: Mix) -> Option<GenPos> {
         },
         Mix::LongExchange => theme_long_exchange(t),
         Mix::Tactical => match t.pick(12) {
-            0 | 1 => root(t),
+            0 => root(t),
+            1 => theme_boxed(t),
             2 | 3 | 4 => theme_multi(t),
             5 => theme_queens(t),
             6 => theme_promo(t),
@@ -875,7 +951,8 @@ pub fn gen_root(t: &mut Tape, mix: Mix) -> Option<GenPos> {
             _ => theme_random(t),
         },
         Mix::General => match t.pick(16) {
-            0 | 1 | 2 | 3 => root(t),
+            0 | 1 | 2 => root(t),
+            3 => theme_boxed(t),
             4 | 5 => theme_pin(t),
             6 | 7 | 8 => theme_ep(t),
             9 => theme_check(t),
@@ -1023,6 +1100,39 @@ pub fn classify(p: &Pos) -> Vec<&'static str> {
         c.push("promotion");
         if !checkers.is_empty() {
             c.push("promotion_in_check");
+        }
+    }
+    c.extend(material_classes(p));
+    c
+}
+
+/// Cheap classes about material and fully blocked slider lines (shared by several checks).
+pub fn material_classes(p: &Pos) -> Vec<&'static str> {
+    let mut c = vec![];
+    for w in [true, false] {
+        if [Kind::N, Kind::B, Kind::R].iter().any(|k| p.count(w, *k) >= 10) || p.count(w, Kind::Q) >= 9 {
+            c.push("most_men_of_one_kind_a_game_can_produce");
+            break;
+        }
+    }
+    // a rook / queen (bishop / queen) all of whose line squares are occupied
+    'outer: for s in 0..64u8 {
+        let Some(pc) = p.board[s as usize] else { continue };
+        for (kinds, diag) in [([Kind::R, Kind::Q], false), ([Kind::B, Kind::Q], true)] {
+            if !kinds.contains(&pc.kind) {
+                continue;
+            }
+            let mut n = 0;
+            let full = ALL_D.iter().filter(|d| (d.0 != 0 && d.1 != 0) == diag).all(|d| {
+                ray(s, *d).iter().all(|q| {
+                    n += 1;
+                    p.board[*q as usize].is_some()
+                })
+            });
+            if full && n >= 9 {
+                c.push("slider_with_every_line_square_occupied");
+                break 'outer;
+            }
         }
     }
     c
